@@ -17,6 +17,9 @@ def main():
             na.append(dict(property_id=pid, reason='check not built yet in this round; planned per DESIGN.md §9 (not a limitation of the technique)'))
             continue
         mod = importlib.import_module('harness.props.' + pid)
+        if not getattr(mod, 'READY', False):
+            na.append(dict(property_id=pid, reason='check under construction in this round (model/driver exist, not yet validated); planned per DESIGN.md §9'))
+            continue
         if getattr(mod, 'NOT_CLAIMED', None):
             na.append(dict(property_id=pid, reason=mod.NOT_CLAIMED))
             continue
